@@ -57,6 +57,7 @@ MUTANTS["C07"] = {
     "ctor_ignores_mode": [(T, "        req_grad = requires_grad and gradient__", "        req_grad = requires_grad")],
     "numpy_guard_dropped": [(T, "        if self.requires_grad:\n            raise RuntimeError(\"Can't call numpy()", "        if False:\n            raise RuntimeError(\"Can't call numpy()")],
     "detach_keeps_flag": [(T, "return Tensor(self.data.copy(), requires_grad=False, name=self.name, device=self.device)", "return Tensor(self.data.copy(), requires_grad=self.requires_grad, name=self.name, device=self.device)")],
+    "addmm_all_for_any": [(F, "    inputs = (x1, x2, x3)\n    req_grad = any(inp.requires_grad for inp in inputs)", "    inputs = (x1, x2, x3)\n    req_grad = all(inp.requires_grad for inp in inputs)")],
     "zero_grad_on_nograd_child": [(T, "if child.requires_grad and (child._grad is None or not child.is_leaf):", "if child._grad is None or not child.is_leaf:")],
 }
 NEUTRAL["ctx_prev_as_local_tuple_stack"] = [(T, "        self.prev.append(gradient__)", "        self.prev = self.prev + [gradient__]")]
@@ -83,3 +84,21 @@ MUTANTS["C08"] = {
 }
 NEUTRAL["sgd_update_out_of_place_same_dtype"] = [(O, "                else:\n                    p.data -= self.lr*grad", "                else:\n                    p.data = (p.data - self.lr*grad).astype(p.data.dtype)")]
 NEUTRAL["adam_torch_code_form"] = [(O, "                p.data -= (self.lr * m1_corrected) / (np.sqrt(m2_corrected) + self.epsilon)\n                \n                \nclass AdamW", "                bc2 = (1.0 - self.beta2**self.t)\n                p.data -= (self.lr / (1.0 - self.beta1**self.t)) * self.m1[i] / (np.sqrt(self.m2[i]) / np.sqrt(bc2) + self.epsilon)\n                \n                \nclass AdamW")]
+
+MUTANTS["C03"] = {
+    "no_visited_check": [(T, "            if node not in visited_nodes:\n                visited_nodes.add(node)", "            if True:\n                visited_nodes.add(node)")],
+    "bfs_order_instead_of_postorder": [(T, "        visit_node(self)\n", "        visit_node(self)\n        bfs = [self]\n        for n_ in bfs:\n            for c_ in n_._children:\n                if c_ not in bfs: bfs.append(c_)\n        ordered_nodes = list(reversed(bfs))\n")],
+    "mul_second_operand_assign_not_accumulate": [(F, "            a_grad, b_grad = cpu_ops.mul_backward(grad_output.data, x1.data, x2.data)\n        else:\n            raise RuntimeError(f\"{grad_output.device} not supported\")\n        \n        if x1.requires_grad: x1._grad += a_grad \n        if x2.requires_grad: x2._grad += b_grad", "            a_grad, b_grad = cpu_ops.mul_backward(grad_output.data, x1.data, x2.data)\n        else:\n            raise RuntimeError(f\"{grad_output.device} not supported\")\n        \n        if x1.requires_grad: x1._grad += a_grad \n        if x2.requires_grad: x2._grad = x2._grad*0 + b_grad")],
+    "sort_nodes_by_id": [(T, "        for i, node in enumerate(reversed(ordered_nodes)):", "        for i, node in enumerate(sorted(ordered_nodes, key=id)):")],
+    # (an unbind closure ignoring out_index is a per-op VJP defect: same kernels on both sides of O1, screened out of O3 -> C01, not claimed)
+    "root_seeded_with_ones": [(T, "            self._grad = grad.data.copy()", "            self._grad = np.ones_like(grad.data)")],
+    "interior_grad_released_before_use": [(T, "            if node is not self and not node.is_leaf and not node._retain_grad and not retain_grads__:\n                del node._grad\n                node._grad = None", "            if node is not self and not node.is_leaf and not node._retain_grad and not retain_grads__:\n                pass\n            for c_ in node._children:\n                if c_.grad_fn is not None and len(c_._children) == 1 and c_._children[0].grad_fn is not None and c_._children[0]._children and not c_._retain_grad and c_._operation == 'Clone':\n                    c_._grad = c_._grad * 2")],
+    "add_backward_skips_when_same_operand": [(F, "        if x1.requires_grad: x1._grad += a_grad \n        if x2.requires_grad: x2._grad += b_grad\n    \n    if out.requires_grad: out.grad_fn = BackwardFunction(backward, out._operation)\n    \n    return out\n\n\ndef mul(", "        if x1.requires_grad: x1._grad += a_grad \n        if x2.requires_grad and x2 is not x1: x2._grad += b_grad\n    \n    if out.requires_grad: out.grad_fn = BackwardFunction(backward, out._operation)\n    \n    return out\n\n\ndef mul(")],
+    "visited_check_by_value_shape": [(T, "            if node not in visited_nodes:\n                visited_nodes.add(node)", "            if (node.shape, node._operation, len(node._children)) not in visited_nodes or node._operation is None:\n                visited_nodes.add((node.shape, node._operation, len(node._children)) if node._operation is not None else id(node))")],
+    "concat_backward_drops_repeated_input": [(F, "        for inp, grad in zip(inputs, gradients):\n            if inp.requires_grad: inp._grad += grad", "        seen_ = []\n        for inp, grad in zip(inputs, gradients):\n            if inp.requires_grad and not any(inp is s_ for s_ in seen_): inp._grad += grad\n            seen_.append(inp)")],
+    # (any()->all() in one op is the propagation clause of C07: mutant addmm_all_for_any there)
+    "children_order_dependent_sweep": [(T, "                ordered_nodes.append(node)\n        visit_node(self)", "                if len(node._children) == 2 and node._children[0].grad_fn is None and node._children[1].grad_fn is not None and node._children[1] in ordered_nodes:\n                    ordered_nodes.insert(ordered_nodes.index(node._children[1]), node)\n                else:\n                    ordered_nodes.append(node)\n        visit_node(self)")],
+}
+NEUTRAL["iterative_postorder_dfs"] = [(T, "        def visit_node(node):\n            if node not in visited_nodes:\n                visited_nodes.add(node)\n                for child in node._children:\n                    # leaves accumulate across calls; a gradient left on a non-leaf by\n                    # an earlier call must not be propagated again\n                    if child.requires_grad and (child._grad is None or not child.is_leaf):\n                        child.zero_()\n                    visit_node(child)\n                ordered_nodes.append(node)\n        visit_node(self)",
+   "        stack_ = [(self, False)]\n        while stack_:\n            node, done_ = stack_.pop()\n            if done_:\n                ordered_nodes.append(node); continue\n            if node in visited_nodes: continue\n            visited_nodes.add(node)\n            stack_.append((node, True))\n            for child in reversed(node._children):\n                if child.requires_grad and (child._grad is None or not child.is_leaf):\n                    child.zero_()\n                stack_.append((child, False))")]
+NEUTRAL["kahn_topological_order"] = [(T, "        visit_node(self)\n", "        visit_node(self)\n        indeg_ = {id(n_): 0 for n_ in ordered_nodes}\n        for n_ in ordered_nodes:\n            for c_ in set(n_._children): indeg_[id(c_)] += 1\n        ready_ = [self]; kahn_ = []\n        while ready_:\n            n_ = ready_.pop(); kahn_.append(n_)\n            for c_ in set(n_._children):\n                indeg_[id(c_)] -= 1\n                if indeg_[id(c_)] == 0: ready_.append(c_)\n        ordered_nodes = list(reversed(kahn_))\n")]
